@@ -671,7 +671,19 @@ fn main() {
         o.hist("roundtrip:modify");
         o.case(&format!("rt {}", fmod_tok(&m)), true);
         let mut bytes = Vec::new();
-        if TTYEncoder::new(true_caps.clone()).encode(&mut bytes, TerminalCommand::FaceModify(m)).is_err() {
+        let mut enc = TTYEncoder::new(true_caps.clone());
+        // every fourth record goes through an encoder whose previous face change hit a sink that failed part
+        // way (a full fixed-size buffer): what was refused must not leak into this record
+        let mut refused = String::from("-");
+        if i % 4 == 3 {
+            let prev = rnd_modify(&mut rng);
+            let mut small = vec![0u8; rng.below(40) as usize];
+            let cmd = if rng.chance(1, 2) { TerminalCommand::FaceModify(prev) } else { TerminalCommand::Face(rnd_face(&mut rng)) };
+            let r = enc.encode(&mut small.as_mut_slice(), cmd);
+            refused = format!("{} into {} bytes: {}", fmod_tok(&prev), small.len(), if r.is_ok() { "ok" } else { "err" });
+            o.hist("roundtrip:modify-after-refused-write");
+        }
+        if enc.encode(&mut bytes, TerminalCommand::FaceModify(m)).is_err() {
             o.fail("C06: encode failed", json!({"case": case, "modify": fmod_tok(&m)}), json!("bytes"), json!("error"));
             continue;
         }
@@ -684,7 +696,7 @@ fn main() {
         if !ok {
             o.fail(
                 "C06: FaceModify does not read back from the encoder's own output",
-                json!({"case": case, "modify": fmod_tok(&m), "bytes": String::from_utf8_lossy(&bytes), "cuts": cuts, "has_inexpressible_param": false}),
+                json!({"case": case, "modify": fmod_tok(&m), "bytes": String::from_utf8_lossy(&bytes), "cuts": cuts, "previous_refused_write": refused, "has_inexpressible_param": false}),
                 json!(format!("commands whose composition is {m:?}")),
                 json!(format!("{got:?}")),
             );
